@@ -454,6 +454,8 @@ def radshock_params(draw, kind):
         p['gamma'] = draw(st.sampled_from([5.0 / 3.0, 1.4, 1.5]))
     if draw(st.booleans()) and kind != 'ie':
         p['Cv'] = 1.4472799784454e12 * draw(st.sampled_from([1.0, 0.5, 2.0]))
+    if kind in ('nED', 'Sn') and draw(st.integers(0, 2)) == 0:
+        p['sigS'] = draw(st.sampled_from([100.0, 300.0, 577.35]))      # scattering: total cross section != absorption cross section
     return p
 
 
